@@ -82,6 +82,28 @@ pub fn listeners(path: &Path) -> Vec<u64> {
     }
     out
 }
+/// Is there an inotify watch (of this process: kvarn_signal's watcher) on the file at `path`?  Read from
+/// /proc/self/fdinfo (`inotify wd:.. ino:<hex> ..`).  The watch is registered right after the bind; a removal of the file in
+/// that instant would go unnoticed, and that window is not part of the property: the harness waits for the watch.
+pub fn watched(path: &Path) -> bool {
+    use std::os::unix::fs::MetadataExt;
+    let ino = match std::fs::symlink_metadata(path) {
+        Ok(m) => format!("ino:{:x} ", m.ino()),
+        Err(_) => return false,
+    };
+    let dir = match std::fs::read_dir("/proc/self/fdinfo") {
+        Ok(d) => d,
+        Err(_) => return true,
+    };
+    for e in dir.flatten() {
+        if let Ok(text) = std::fs::read_to_string(e.path()) {
+            if text.lines().any(|l| l.starts_with("inotify ") && l.contains(&ino)) {
+                return true;
+            }
+        }
+    }
+    false
+}
 pub fn is_listening(path: &Path) -> bool {
     !listeners(path).is_empty()
 }
@@ -483,6 +505,12 @@ async fn run_script(script: &Script, kind: Kind, wait: Duration) -> Option<(Vec<
             10 => {
                 let before = listeners(&c.server.path);
                 let mut ok = false;
+                if !before.is_empty() {
+                    let t0 = Instant::now();
+                    while !watched(&c.server.path) && t0.elapsed() < Duration::from_secs(5) {
+                        tokio::time::sleep(Duration::from_millis(2)).await;
+                    }
+                }
                 if !before.is_empty() && std::fs::remove_file(&c.server.path).is_ok() {
                     let t0 = Instant::now();
                     while t0.elapsed() < Duration::from_secs(10) {
